@@ -287,7 +287,7 @@ class GenObj(Abs):
         if self.thread is None:
             self.resume = threading.Semaphore(0)
             self.ready = threading.Semaphore(0)
-            self.thread = threading.Thread(target=self._run, daemon=True)
+            self.thread = threading.Thread(target=self._run, daemon=True, name="sa-deep-gen")
             self.thread.start()
         else:
             self.resume.release()
@@ -438,7 +438,7 @@ class Explorer(object):
             self.trace = []
             try:
                 try:
-                    v = fn(self)
+                    v = _run_deep(fn, self)
                 finally:
                     self._cleanup()
                 results.append(PathResult(list(self.trace), "return", v))
@@ -456,6 +456,35 @@ class Explorer(object):
                 results.append(PathResult(list(self.trace), "unsupported",
                                           "analyser error %s: %s (%s:%d)" % (type(ex).__name__, ex, tb.filename.split("/")[-1], tb.lineno)))
         return results
+
+
+_DEEP = {"set": False}
+
+
+def _run_deep(fn, arg):
+    """Run fn(arg) on a thread with a large stack and a high recursion limit: the interpreter recurses on
+    the syntax of the interpreted program and on its call depth."""
+    import threading
+    import sys
+    if not _DEEP["set"]:
+        threading.stack_size(512 * 1024 * 1024)
+        sys.setrecursionlimit(40000)
+        _DEEP["set"] = True
+    if threading.current_thread().name.startswith("sa-deep"):
+        return fn(arg)
+    box = {}
+
+    def target():
+        try:
+            box["v"] = fn(arg)
+        except BaseException as ex:
+            box["e"] = ex
+    t = threading.Thread(target=target, name="sa-deep")
+    t.start()
+    t.join()
+    if "e" in box:
+        raise box["e"]
+    return box["v"]
 
 
 # ------------------------------------------------------------------------------------ interpreter
@@ -479,6 +508,7 @@ class Interp(object):
         self.depth = 0
         self.modcache = {}
         self.generators = []
+        self.mod_inited = set()
         if hasattr(explorer, "interps"):
             explorer.interps.append(self)
 
@@ -499,6 +529,11 @@ class Interp(object):
                     return r
             if isinstance(v, (AObj, Func, Prim, ClassRef, ModRef, Partial)):
                 return True
+            from .extmodel import DequeModel, ExtModel
+            if isinstance(v, DequeModel):
+                return bool(v.items)
+            if isinstance(v, (ExtModel, GenObj, ListIter)):
+                return True
             self.unsupported("truth value of %r" % (v,))
         return bool(v)
 
@@ -511,11 +546,55 @@ class Interp(object):
         self.modcache[key] = v
         return v
 
+    def _needs_init(self, module):
+        """Modules whose top level rebinds a name or fills containers in loops are initialised by
+        interpreting their body in order (flow-sensitive), not by lazy per-name evaluation."""
+        r = getattr(module, "_needs_init", None)
+        if r is None:
+            seen, r = set(), False
+            for st in module.tree.body:
+                if isinstance(st, (ast.For, ast.While, ast.AugAssign)):
+                    r = True
+                    break
+                if isinstance(st, ast.Assign):
+                    for t in st.targets:
+                        for nm in [x.id for x in ast.walk(t) if isinstance(x, ast.Name)]:
+                            if nm in seen:
+                                r = True
+                            seen.add(nm)
+            module._needs_init = r
+        return r
+
+    def init_module(self, module):
+        self.mod_inited.add(module.name)
+        env = Env()
+        ctx = _ModuleCtx(module)
+        for st in module.tree.body:
+            if isinstance(st, (ast.Import, ast.ImportFrom, ast.FunctionDef, ast.ClassDef, ast.AsyncFunctionDef)):
+                continue
+            if isinstance(st, ast.Expr) and isinstance(st.value, ast.Constant):
+                continue
+            if isinstance(st, ast.If) and "__name__" in ast.unparse(st.test):
+                continue
+            try:
+                self.exec_stmt(st, env, ctx)
+            except (AbsRaise, Unsupported):
+                # the names this statement binds stay lazily evaluated
+                continue
+            for k, v in env.vars.items():
+                self.modcache[(module.name, k)] = v
+
     def _module_global(self, module, name):
         if self.domain is not None:
             hit, v = self.domain.global_override(self, module, name)
             if hit:
                 return v
+        if module.name not in self.mod_inited and self._needs_init(module):
+            r0 = self.repo.resolve(module, name)
+            if r0 is not None and r0[0] == "assign" and r0[1] is module:
+                self.init_module(module)
+                if (module.name, name) in self.modcache:
+                    return self.modcache[(module.name, name)]
         if name == "__name__":
             return module.name
         r = self.repo.resolve(module, name)
@@ -683,11 +762,33 @@ class Interp(object):
         # exception classes
         if self._is_exception_class(cref.qual):
             return AObj(cref.qual, {"args": tuple(args)}, tag="exc")
+        nt = self._namedtuple_fields(cref.qual)
+        if nt is not None:
+            vals = dict(zip(nt, args))
+            vals.update(kwargs)
+            if set(vals) != set(nt):
+                raise AbsRaise("TypeError", ("namedtuple %s expects fields %s" % (cref.qual, nt),))
+            obj = AObj(cref.qual, vals, tag="namedtuple")
+            obj.fields = nt
+            return obj
         obj = AObj(cref.qual)
         q, init = self.repo.find_method(cref.qual, "__init__")
         if init is not None:
             self.call_func(Func(init, self.repo.classes[q].module, q, bound=obj), args, kwargs)
         return obj
+
+    def _namedtuple_fields(self, qual):
+        """class C(namedtuple('C', [fields])) -> fields"""
+        for q in self.repo.mro(qual):
+            for b in self.repo.classes[q].base_exprs:
+                if isinstance(b, ast.Call) and (getattr(b.func, "id", None) == "namedtuple" or
+                                                getattr(b.func, "attr", None) == "namedtuple") and len(b.args) == 2:
+                    try:
+                        f = ast.literal_eval(b.args[1])
+                    except ValueError:
+                        return None
+                    return f.split() if isinstance(f, str) else list(f)
+        return None
 
     def _is_exception_class(self, qual, seen=None):
         seen = seen or set()
@@ -725,6 +826,21 @@ class Interp(object):
                 return getattr(_re, n)(*args, **kwargs)
             except Exception as ex:
                 raise AbsRaise(type(ex).__name__, ex.args)
+        if n == "defaultdict":
+            import collections
+            fac = args[0] if args else None
+            real = {"list": list, "set": set, "dict": dict, "int": int}.get(getattr(fac, "name", None))
+            if fac is not None and real is None:
+                self.unsupported("defaultdict factory %r" % (fac,), node)
+            return collections.defaultdict(real)
+        if n in ("StringIO", "deque"):
+            from .extmodel import StringIOModel, DequeModel
+            if n == "StringIO":
+                init = args[0] if args else ""
+                if not isinstance(init, str):
+                    self.unsupported("StringIO over abstract text", node)
+                return StringIOModel(init)
+            return DequeModel(self.iterate(args[0]) if args else [])
         if n == "partial":
             return Partial(args[0], args[1:], kwargs)
         if n == "warn":
@@ -780,6 +896,17 @@ class Interp(object):
                 return obj.name
             self.unsupported("attribute %s of function" % name, node)
         if isinstance(obj, Abs):
+            from .extmodel import ExtModel
+            if isinstance(obj, ExtModel):
+                m = obj.method(name)
+                if m is not None:
+                    return Prim(m, "%s.%s" % (type(obj).__name__, name))
+                if name == "closed":
+                    return getattr(obj, "closed", False)
+            if isinstance(obj, (GenObj, ListIter)) and name in ("__next__", "next"):
+                return Prim(lambda it, a, k, o=obj: o.next(), "next")
+            if isinstance(obj, GenObj) and name == "close":
+                return Prim(lambda it, a, k, o=obj: o.close(), "close")
             self.unsupported("attribute %s of %r" % (name, obj), node)
         # concrete python value
         return self.py_getattr(obj, name, node)
@@ -825,6 +952,8 @@ class Interp(object):
         if isinstance(obj, (str, list, tuple, dict, set, frozenset, int, Fraction, bool)) or obj is None:
             if not hasattr(obj, name):
                 raise AbsRaise("AttributeError", ("%s has no attribute %s" % (type(obj).__name__, name),))
+            if isinstance(obj, (int, Fraction)) and name in ("numerator", "denominator", "real", "imag"):
+                return getattr(obj, name)
             return Prim(lambda it, a, k, o=obj, n=name: it.py_method(o, n, a, k), "%s.%s" % (type(obj).__name__, name))
         import re as _re
         if isinstance(obj, _re.Pattern) and name in ("match", "search", "fullmatch", "sub", "findall"):
@@ -891,10 +1020,18 @@ class Interp(object):
             return v.drain()
         if isinstance(v, ListIter):
             return v.rest()
+        if isinstance(v, Abs) and not isinstance(v, (AObj, SymInt, SymBool)):
+            from .extmodel import StringIOModel, DequeModel
+            if isinstance(v, StringIOModel):
+                return v.lines()
+            if isinstance(v, DequeModel):
+                return list(v.items)
         if isinstance(v, (list, tuple, set, frozenset, str, range)):
             return list(v)
         if isinstance(v, dict):
             return list(v.keys())
+        if isinstance(v, AObj) and v.tag == "namedtuple":
+            return [v.attrs[f] for f in v.fields]
         if isinstance(v, Abs) and self.domain is not None:
             hit, r = self.domain.iterate(self, v)
             if hit:
@@ -906,7 +1043,16 @@ class Interp(object):
     # ------------------------------------------------------------------ statements
     def exec_block(self, stmts, env, ctx):
         for st in stmts:
-            self.exec_stmt(st, env, ctx)
+            try:
+                self.exec_stmt(st, env, ctx)
+            except (AbsRaise, Unsupported) as ex:
+                tr = getattr(ex, "trace", None)
+                if tr is None:
+                    tr = ex.trace = []
+                if len(tr) < 12:
+                    tr.append("%s:%s" % (ctx.module.name if ctx is not None and ctx.module is not None else "?",
+                                         getattr(st, "lineno", "?")))
+                raise
 
     def exec_stmt(self, st, env, ctx):
         self.steps += 1
@@ -1594,6 +1740,9 @@ class _ModuleCtx(_FuncCtx):
 def _b_len(it, a, k):
     v = a[0]
     if isinstance(v, Abs):
+        from .extmodel import DequeModel
+        if isinstance(v, DequeModel):
+            return len(v.items)
         if it.domain is not None:
             hit, r = it.domain.len(it, v)
             if hit:
